@@ -26,12 +26,17 @@ FULL_SLOT = ("f({})", "f(1, {})", "IF({}, 1, 2)", "IF(x, {}, 2)", "CASE WHEN {} 
              "(SELECT {} FROM u)", "EXISTS (SELECT 1 FROM u WHERE {})", "coalesce({}, {})", "x IN (SELECT {} FROM u)")
 
 
+# the dialect spelling must be honoured whatever quoted text precedes it (apostrophes inside other quotes and comments included)
+QUOTE_CONTEXT = ["SELECT 1 FROM t WHERE n = \"it's\" AND {}", "SELECT 1 -- don't\n FROM t WHERE {}", "SELECT 'a''b', {} FROM t", "SELECT `it's`, {} FROM t /* ' */",
+                 "SELECT {} FROM t WHERE n = 'x' # it's\n AND m = \"'\""]
+
+
 def planted(d, leaf_variants, two_level):
     """texts with the leaf variants planted at every container x clause position; returns list of tuples of texts.
     Containers whose slot is not a full-expression slot (operands of tighter operators, compute-level slots) get the leaf in brackets."""
     out = []
     leaf_variants_b = tuple("(" + v + ")" for v in leaf_variants)
-    clauses = c01.CLAUSES + (HIVE_CLAUSES if d == "HIVE" else [])
+    clauses = c01.CLAUSES + QUOTE_CONTEXT + (HIVE_CLAUSES if d == "HIVE" else [])
     for ci, c in enumerate(c01.CONTAINERS):
         for cl in clauses:
             if "GROUP BY {}" in cl or "ORDER BY {}" in cl or "VALUES ({})" in cl:
